@@ -963,7 +963,7 @@ pub fn run(args: &Args, report: &Report) -> (&'static str, bool, Vec<&'static st
         if let Some(s) = replaying.as_ref().and_then(|r| r.get("seed")).and_then(|s| s.as_u64()) {
             args2.seed = s;
         }
-        let nodes = args.by_tier(1u64, 3);
+        let nodes = args.by_tier(2u64, 4);
         let rounds = args.by_tier(10u32, 16);
         Some(
             std::thread::Builder::new()
@@ -1010,7 +1010,7 @@ pub fn run(args: &Args, report: &Report) -> (&'static str, bool, Vec<&'static st
         ] {
             report.require(key, min * k);
         }
-        let n = args.by_tier(1u64, 3);
+        let n = args.by_tier(2u64, 4);
         report.require("c36.node.blocks", 8 * n);
         report.require("c36.node.txs_in_blocks", 15 * n);
         report.require("c36.node.readview.balance_nonzero", 100 * n);
